@@ -125,6 +125,7 @@ class no_cache(object):
                 _args, _kwds = rounded_args(*args, **kwds)
                 _args, _kwds = _keygen(user_function, ignore, *_args, **_kwds)
                 key = keymap(*_args, **_kwds)
+                hash(key) # a key that cannot be hashed cannot be cached
             except: #TypeError
                 result = user_function(*args, **kwds)
                 stats[MISS] += 1
@@ -317,6 +318,7 @@ class inf_cache(object):
                 _args, _kwds = rounded_args(*args, **kwds)
                 _args, _kwds = _keygen(user_function, ignore, *_args, **_kwds)
                 key = keymap(*_args, **_kwds)
+                hash(key) # a key that cannot be hashed cannot be cached
             except: #TypeError
                 result = user_function(*args, **kwds)
                 stats[MISS] += 1
@@ -525,6 +527,7 @@ class lfu_cache(object):
                 _args, _kwds = rounded_args(*args, **kwds)
                 _args, _kwds = _keygen(user_function, ignore, *_args, **_kwds)
                 key = keymap(*_args, **_kwds)
+                hash(key) # a key that cannot be hashed cannot be cached
             except: #TypeError
                 result = user_function(*args, **kwds)
                 stats[MISS] += 1
@@ -762,6 +765,7 @@ class lru_cache(object):
                 _args, _kwds = rounded_args(*args, **kwds)
                 _args, _kwds = _keygen(user_function, ignore, *_args, **_kwds)
                 key = keymap(*_args, **_kwds)
+                hash(key) # a key that cannot be hashed cannot be cached
             except: #TypeError
                 result = user_function(*args, **kwds)
                 stats[MISS] += 1
@@ -1016,6 +1020,7 @@ class mru_cache(object):
                 _args, _kwds = rounded_args(*args, **kwds)
                 _args, _kwds = _keygen(user_function, ignore, *_args, **_kwds)
                 key = keymap(*_args, **_kwds)
+                hash(key) # a key that cannot be hashed cannot be cached
             except: #TypeError
                 result = user_function(*args, **kwds)
                 stats[MISS] += 1
@@ -1248,6 +1253,7 @@ class rr_cache(object):
                 _args, _kwds = rounded_args(*args, **kwds)
                 _args, _kwds = _keygen(user_function, ignore, *_args, **_kwds)
                 key = keymap(*_args, **_kwds)
+                hash(key) # a key that cannot be hashed cannot be cached
             except: #TypeError
                 result = user_function(*args, **kwds)
                 stats[MISS] += 1
